@@ -80,13 +80,29 @@ class MstSuite(Suite):
         out = []
         big = tier == "thorough" or widen
         for n in [2, 3, 4, 6, 9, 14, 22] + ([40, 80] if big else []):
-            for _ in range(3 if not big else 8):
+            for _rep in range(3 if not big else 8):
                 pts = cloud(rng, n, dim=rng.choice([1, 2, 3, 3]))
                 bf = rng.choice([0.0, 0.0, 0.25, 0.5, 1.0, 0.75])
                 k = rng.choice([-1, -1, 1, 2, 2, 3])
                 cls = "mst" if bf == 0 and rng.random() < 0.5 else "cuntz"
+                if (_rep == 0 or rng.random() < 0.2) and n >= 4:
+                    # far from the origin with fine spacing: the distance matrix must be computed in double precision
+                    off = [1.0e6, 2.0e6, 1.5e6]
+                    pts = [[off[i] + rng.uniform(-1.5, 1.5) for i in range(3)] for p in pts]
+                    if len({tuple(np.float32(c) for c in p) for p in pts}) < len(pts):
+                        continue
+                    cls = cls + "-far"
                 out.append({"class": f"{cls}/bf{bf}/k{k}", "points": pts, "bf": bf, "k": k, "exclude_soma": rng.random() < 0.6,
-                            "soma": rng.random() < 0.4, "sort": rng.random() < 0.5, "api": cls})
+                            "soma": rng.random() < 0.4, "sort": rng.random() < 0.5, "api": cls.split("-")[0]})
+        # dense clouds far from the origin: many nearly equal candidate edges, resolved only in double precision
+        for _ in range(3 if not big else 8):
+            off = [1.0e6, 2.0e6, 1.5e6]
+            pts = [[off[i] + rng.uniform(-2.0, 2.0) for i in range(3)] for _ in range(36)]
+            if len({tuple(np.float32(c) for c in p) for p in pts}) < len(pts):
+                continue
+            bf = rng.choice([0.0, 0.0, 0.5])
+            out.append({"class": f"dense-far/bf{bf}/k-1", "points": pts, "bf": bf, "k": -1, "exclude_soma": True, "soma": False, "sort": rng.random() < 0.5,
+                        "api": "mst" if bf == 0 else "cuntz"})
         return out
 
     def run(self, case):
@@ -109,7 +125,7 @@ class MstSuite(Suite):
 
     def _orig_pids(self, case, res):
         """parents in the numbering of the input cloud (positions identify nodes)"""
-        pos = {tuple(p): i for i, p in enumerate(case["points"])}
+        pos = {tuple(float(np.float32(c)) for c in p): i for i, p in enumerate(case["points"])}
         old = [pos.get(tuple(p)) for p in res["xyz"]]
         if None in old or len(set(old)) != len(old):
             return None, old
@@ -166,8 +182,11 @@ class MstSuite(Suite):
             out.append((key, f"bf={case['bf']} k={case['k']}: point {diff[0]} attached to {pid[diff[0]]}, the rule (edge + bf·path length of the attachment point) gives {ref[diff[0]]}"))
         if case["bf"] == 0 and case["k"] == -1:
             w = mst_weight(pts)
-            if abs(res["length"] - w) > 1e-4 * max(1.0, w):
-                out.append(("mst-weight", f"total length {res['length']}, minimum spanning tree weight {w}"))
+            # the tree stores float32 coordinates: measure the returned edges on the exact input points
+            P = np.array(pts, dtype=np.float64)
+            length = sum(float(np.linalg.norm(P[i] - P[p])) for i, p in enumerate(pid) if p >= 0)
+            if abs(length - w) > 1e-7 * max(1.0, w):
+                out.append(("mst-weight", f"total length {length}, minimum spanning tree weight {w}"))
         return out[:3]
 
     def nontrivial(self, case, res):
